@@ -383,6 +383,51 @@ def hugr_leg(ctx):
                 if doc != doc0:
                     ctx.violate("idempotent", "resolving-again-after-registry-edits-changed-the-document", {})
                     return
+    if chain and not ctx.violations and ch.coin(1, 3, "op-reassigned-after-resolution"):
+        # a rewrite puts an opaque operation back on an existing node (`h[n].op = ...`, no node is added) after the HUGR has
+        # been resolved, and resolves again: the stored opaque form must be replaced exactly as the first time; a look-alike
+        # whose extension field is empty and whose name merely *spells* "<extension>.<op>" names no extension of the
+        # registry and stays what it is
+        import copy as _copy
+        groups = chain[-1]
+        h0 = Hugr.load_json(stored)
+        cands = [n for n in h0 if op_tree(h0[n].op)[0] == "Custom"]
+        if cands:
+            n = cands[ch.draw(len(cands), "which-op")]
+            orig = h0[n].op
+            lookalike = ch.coin(1, 2, "look-alike")
+            t_ = T()
+            new = t_.ops.Custom(op_name=f"{orig.extension}.{orig.op_name}", signature=_copy.deepcopy(orig.signature),
+                                description=orig.description, extension="", args=_copy.deepcopy(orig.args)) if lookalike \
+                else _copy.deepcopy(orig)
+            h[_node(h, n.idx)].op = new
+            tb = op_tree(new)
+            ctx.ev("rewrite", "h[n].op = <opaque>", {"node": n.idx, "look_alike": lookalike})
+            ctx.probe("opaque_lookalike_assigned" if lookalike else "opaque_op_reassigned_after_resolution")
+            ctx.fault("op_reassigned_after_resolution")
+            try:
+                doc_b = strip_descr(json.loads(h.to_json()))
+                h.resolve_extensions(registry(groups, ctx))
+                doc_a = strip_descr(json.loads(h.to_json()))
+            except Exception as e:  # noqa: BLE001
+                ctx.violate("resolve", f"raised:{type(e).__name__}:after-op-reassigned", {"error": str(e)[:200]})
+                return
+            ctx.steps += 1
+            ctx.checked("exactly-when")
+            op_a = h[_node(h, n.idx)].op
+            ta = op_tree(op_a)
+            should = (not lookalike) and knows_op(groups, tb[1], tb[2])
+            if should and ta[0] != "ExtOp":
+                ctx.violate("exactly-when", "op-not-resolved:reassigned-after-resolution", {"node": n.idx, "op": f"{tb[1]}.{tb[2]}", "registry": groups})
+            elif not should and (ta[0] != "Custom" or op_a is not new):
+                ctx.violate("exactly-when" if ta[0] != "Custom" else "untouched",
+                            "op-resolved-without-definition:" + ("empty-extension-dotted-name" if lookalike else "reassigned"),
+                            {"node": n.idx, "op": f"{tb[1]!r}.{tb[2]}", "became": list(ta[:3])})
+            ctx.checked("wire-invariant")
+            if doc_a != doc_b:
+                from ..engines.c_persist import _doc_diff_cls, _first_diff
+                ctx.violate("wire-invariant", "after-op-reassigned:" + _doc_diff_cls(doc_b, doc_a), {"diff": _first_diff(doc_b, doc_a)})
+            return
     if chain and not ctx.violations and ch.coin(1, 3, "resolve-against-a-smaller-registry"):
         # another component resolves the HUGR once more against what *it* knows - a subset of the last registry: there is
         # nothing new to replace, and what is definition-backed already is not opaque, so nothing changes at all
